@@ -36,7 +36,7 @@ def prepare():
 def budgets(tier):
     if tier == 'quick':
         return dict(shards=16, examples=25)
-    return dict(shards=16, examples=1200, deadline_s=3000)
+    return dict(shards=16, examples=3600, deadline_s=3000)
 
 
 def strategy(tier):
